@@ -258,13 +258,11 @@ def invgamma_prior(a, scale, loc=0.0, step=1e-2) -> Callable:
             f"; got {type(a)} and {type(loc)} respectively"
         )
         raise TypeError(te)
-    if loc == 0.0:
-        # Pull out `scale` to interpolate less
-        s2i = lambda x: invgamma.ppf(norm._cdf(x), a=a)
-    elif jnp.isscalar(scale):
-        s2i = lambda x: invgamma.ppf(norm._cdf(x), a=a, loc=loc, scale=scale)
-    else:
+    if loc != 0.0 and not jnp.isscalar(scale):
         raise TypeError("`scale` may only be array-like for `loc == 0.`")
+    # Pull out `scale` and `loc` to interpolate the standard quantile function
+    # only; the logarithmic table is undefined for `loc + scale * x <= 0`.
+    s2i = lambda x: invgamma.ppf(norm._cdf(x), a=a)
 
     xmin, xmax = -8.2, 8.2  # (1. - norm.cdf(8.2)) * 2 < 1e-15
     standard_to_invgamma_interp = interpolator(
@@ -273,10 +271,10 @@ def invgamma_prior(a, scale, loc=0.0, step=1e-2) -> Callable:
 
     def standard_to_invgamma(x):
         # Allow for array-like `scale` without separate interpolations and only
-        # interpolate for shape `a` and `loc`
+        # interpolate for shape `a`
         if loc == 0.0:
             return standard_to_invgamma_interp(x) * scale
-        return standard_to_invgamma_interp(x)
+        return loc + standard_to_invgamma_interp(x) * scale
 
     return standard_to_invgamma
 
@@ -286,8 +284,8 @@ def invgamma_invprior(a, scale, loc=0.0, step=1e-2) -> Callable:
     from scipy.stats import invgamma, norm
 
     xmin, xmax = -8.2, 8.2  # (1. - norm.cdf(8.2)) * 2 < 1e-15
-    _, invgamma_to_standard = interpolator(
-        lambda x: invgamma.ppf(norm._cdf(x), a=a, loc=loc, scale=scale),
+    _, invgamma_to_standard_interp = interpolator(
+        lambda x: invgamma.ppf(norm._cdf(x), a=a),
         xmin,
         xmax,
         step=step,
@@ -295,4 +293,8 @@ def invgamma_invprior(a, scale, loc=0.0, step=1e-2) -> Callable:
         inv_table_func=jnp.exp,
         return_inverse=True,
     )
+
+    def invgamma_to_standard(y):
+        return invgamma_to_standard_interp((y - loc) / scale)
+
     return invgamma_to_standard
